@@ -120,8 +120,101 @@ theorem C07_bookkeeping (outcomes : List Outcome) :
     cases outcomes[i] <;> simp [zOf, sigOf]
   · exact count_none_zOf outcomes
 
+/-- number of selected neighbours: `min max_points |{i : d_i ≤ range}|` -/
+theorem findClosestDense_length (row : List Rat) (maxDist : Rat) (N : ℕ) :
+    (findClosestDense row maxDist N).length = min N (candidatesDense row maxDist).length := by
+  obtain ⟨sel, rest, h1, _, h3, _⟩ := selectFrom_spec (candidatesDense row maxDist) N
+  unfold findClosestDense
+  rw [h1, List.length_map, h3]
+
+/-- one target, end to end (`_krige`): NaN for "not enough neighbours" exactly when fewer than
+`min_points` observations lie within the range (after the cut to `max_points`); otherwise the
+estimate and variance are those of the exactly solved ordinary-kriging system of the selected
+neighbourhood `idx` — the neighbourhood characterised by `C07_neighbours`. -/
+theorem C07_target (maxDist : Rat) (minP maxP : ℕ) (G : ℕ → ℕ → Rat) (v : List Rat)
+    (t : List Rat × List Rat) :
+    let idx := findClosestDense t.1 maxDist maxP
+    (krigeOne maxDist minP maxP G v t = .lessPoints ↔
+        min maxP (candidatesDense t.1 maxDist).length < minP) ∧
+    (∀ z sg, krigeOne maxDist minP maxP G v t = .ok z sg →
+      ∃ r : KrigeResult,
+        krigeSolve idx.length (fun a b => G (idx.getD a 0) (idx.getD b 0))
+          (fun a => t.2.getD (idx.getD a 0) 0) (idx.map fun i => v.getD i 0) = some r ∧
+        z = r.estimate ∧ sg = r.variance ∧
+        IsOKSol (n := idx.length)
+          (fun i j => if (i : ℕ) = (j : ℕ) then 0 else G (idx.getD i 0) (idx.getD j 0))
+          (fun i => t.2.getD (idx.getD i 0) 0) (fun j => r.weights.getD j 0) r.mu) := by
+  intro idx
+  have hlen : idx.length = min maxP (candidatesDense t.1 maxDist).length :=
+    findClosestDense_length t.1 maxDist maxP
+  constructor
+  · unfold krigeOne
+    simp only
+    rw [← hlen]
+    constructor
+    · intro h
+      by_contra hc
+      simp only [idx] at hc
+      rw [if_neg hc] at h
+      split at h <;> simp at h
+    · intro h
+      simp only [idx] at h
+      rw [if_pos h]
+  · intro z sg h
+    unfold krigeOne at h
+    simp only at h
+    split_ifs at h with hc
+    split at h
+    · simp at h
+    · rename_i r hr
+      simp only [Outcome.ok.injEq] at h
+      exact ⟨r, hr, h.1.symm, h.2.symm, C07_result_is_OK_solution _ _ _ _ r hr⟩
+
+/-- a whole `transform` call, end to end: the i-th estimate and the i-th variance are those of the
+i-th target (computed by `krigeOne` from that target alone), both NaN exactly for the failed
+targets, and the two failure counters count them -/
+theorem C07_transform (maxDist : Rat) (minP maxP : ℕ) (G : ℕ → ℕ → Rat) (v : List Rat)
+    (targets : List (List Rat × List Rat)) :
+    let k := krigeOne maxDist minP maxP G v
+    let s := krigeTransform maxDist minP maxP G v targets
+    s.z = targets.map (zOf ∘ k) ∧ s.sigma = targets.map (sigOf ∘ k) ∧
+    s.noPoints = (targets.filter fun t =>
+        decide (min maxP (candidatesDense t.1 maxDist).length < minP)).length ∧
+    s.noPoints + s.singular = s.z.count none ∧
+    (∀ i (hi : i < targets.length), (s.z[i]? = some none ↔ s.sigma[i]? = some none)) := by
+  intro k s
+  have hb := C07_bookkeeping (targets.map k)
+  simp only at hb
+  obtain ⟨hz, hs, _, hn, hsing, hnan, hcount⟩ := hb
+  have hz' : s.z = targets.map (zOf ∘ k) := by
+    show (transformLoop (targets.map k)).z = _
+    rw [hz, List.map_map]
+  have hs' : s.sigma = targets.map (sigOf ∘ k) := by
+    show (transformLoop (targets.map k)).sigma = _
+    rw [hs, List.map_map]
+  refine ⟨hz', hs', ?_, ?_, ?_⟩
+  · show (transformLoop (targets.map k)).noPoints = _
+    rw [hn, List.countP_map, List.countP_eq_length_filter]
+    congr 1
+    apply List.filter_congr
+    intro t _
+    have := (C07_target maxDist minP maxP G v t).1
+    simp only [Function.comp]
+    cases hk : k t <;> simp [isLess, k] at * <;> simp_all
+  · show (transformLoop (targets.map k)).noPoints + (transformLoop (targets.map k)).singular = _
+    rw [hn, hsing, hz', ← hcount, List.map_map]
+  · intro i hi
+    rw [hz', hs']
+    simp only [List.getElem?_map, List.getElem?_eq_getElem hi, Option.map_some, Function.comp,
+      Option.some.injEq]
+    cases k targets[i] <;> simp [zOf, sigOf]
+
 /-- non-vacuity: a 2-point system is solved exactly -/
 example : (krigeSolve 2 (fun _ _ => 1) (fun i => if i = 0 then 1/2 else 1) [10, 20]).map (·.estimate)
     = some (25/2) := by decide +kernel
+
+/-- non-vacuity of the end-to-end model: two observations, one target in range, one out of range -/
+example : (krigeTransform 5 1 2 (fun _ _ => 1) [10, 20] [([1, 2], [1/2, 1]), ([9, 8], [1, 1])]).z
+    = [some (25/2), none] := by decide +kernel
 
 end Skg
